@@ -29,6 +29,7 @@ type Engine struct {
 	ghosts    map[string]*GhostFunc // pkg.name
 	macros    map[string]*Macro
 	axioms    []*Axiom
+	ginvs     []*Axiom
 	byShort   map[string]*types.Package
 	loopCache map[*ssa.Function]*LoopInfo
 	constGlobals map[string]bool
@@ -129,6 +130,7 @@ func LoadEngine(repoDir string, overlay map[string][]byte, extSpecs []string) (*
 			}
 		}
 	}
+	eng.scanConstGlobals()
 	// contracts in the repository (guarded files)
 	for _, p := range pkgs {
 		if !strings.HasPrefix(p.PkgPath, modulePath) {
@@ -184,6 +186,7 @@ func (eng *Engine) addContractFile(cf *ContractFile, external bool) {
 		eng.macros[m.Pkg+"."+m.Name] = m
 	}
 	eng.axioms = append(eng.axioms, cf.Axioms...)
+	eng.ginvs = append(eng.ginvs, cf.Ginvs...)
 }
 
 func (eng *Engine) typesPkg(short string) *types.Package { return eng.byShort[short] }
@@ -351,6 +354,9 @@ func (eng *Engine) callMode(fn *ssa.Function) (string, *FuncContract) {
 	}
 	if c := eng.externalFor(fn); c != nil {
 		return "external", c
+	}
+	if fn.Synthetic == "package initializer" {
+		return "skip", nil // initialisation of other packages happens before any code under contract runs
 	}
 	// compiler-generated wrappers are transparent
 	if fn.Synthetic != "" && len(fn.Blocks) > 0 && !strings.HasPrefix(fn.Synthetic, "instance of") {
@@ -540,6 +546,65 @@ func (eng *Engine) loopInfo(fn *ssa.Function) *LoopInfo {
 }
 
 func (eng *Engine) globalIsConst(comp string) bool { return eng.constGlobals[comp] }
+
+// scanConstGlobals finds package-level variables of the module that are
+// stored to only by package initialisers (checked again per function by the
+// frame.G obligations): they keep their value across calls of unknown code.
+func (eng *Engine) scanConstGlobals() {
+	written := map[string]bool{}
+	all := map[string]bool{}
+	for _, sp := range eng.spkgs {
+		if sp == nil || !strings.HasPrefix(sp.Pkg.Path(), modulePath) {
+			continue
+		}
+		for _, m := range sp.Members {
+			if g, ok := m.(*ssa.Global); ok {
+				all[compGlobal(g)] = true
+			}
+		}
+	}
+	var visit func(fn *ssa.Function)
+	seen := map[*ssa.Function]bool{}
+	visit = func(fn *ssa.Function) {
+		if fn == nil || seen[fn] {
+			return
+		}
+		seen[fn] = true
+		isInit := fn.Synthetic == "package initializer" || (fn.Parent() == nil && strings.HasPrefix(fn.Name(), "init#"))
+		for _, b := range fn.Blocks {
+			for _, in := range b.Instrs {
+				if s, ok := in.(*ssa.Store); ok && !isInit {
+					var root ssa.Value = s.Addr
+					for {
+						switch x := root.(type) {
+						case *ssa.FieldAddr:
+							root = x.X
+							continue
+						case *ssa.IndexAddr:
+							root = x.X
+							continue
+						}
+						break
+					}
+					if g, ok := root.(*ssa.Global); ok {
+						written[compGlobal(g)] = true
+					}
+				}
+			}
+		}
+		for _, a := range fn.AnonFuncs {
+			visit(a)
+		}
+	}
+	for _, fn := range eng.funcs {
+		visit(fn)
+	}
+	for g := range all {
+		if !written[g] {
+			eng.constGlobals[g] = true
+		}
+	}
+}
 
 // typeSubstFor maps type parameter names of fn's origin to the instance's type arguments.
 func (eng *Engine) typeSubstFor(fn *ssa.Function) map[string]types.Type {
